@@ -89,7 +89,12 @@ def run(v, tier, rng):
         base = len(progs)
         progs += [definer] + referrers
         ref_groups.append((base, [base + 1 + j for j in range(len(referrers))]))
-    npool_hist = npool = len(progs) - sum(1 + len(rs) for _, rs in ref_groups)
+    undef_idx = []
+    for k, names in enumerate((["_u1", "_u2"], ["_zz", "_aa", "_mm"], ["_e%d" % j for j in range(6)])):
+        progs.append([("config", "FORMAT", ("str", b"WCOFF")), ("config", "BITS", ("num", 32)), ("config", "FILE", ("str", b"u.nas")), ("global", names + ["_here%d" % k]),
+                      ("config", "SECTION", ("id", ".text")), ("label", "_here%d" % k), ("op", "RET")])
+        undef_idx.append(len(progs) - 1)
+    npool_hist = npool = len(progs) - sum(1 + len(rs) for _, rs in ref_groups) - len(undef_idx)
     texts = [A.p_program(p) for p in progs]
     # reference: one fresh process per program (the CLI binary)
     work = os.path.join(lib.BUILD, "c10-%d" % os.getpid())
@@ -130,6 +135,10 @@ def run(v, tier, rng):
             for o, seq in enumerate(([d, r], [r, d, r], [d, d, r, r])):
                 cases.append({"id": "dr%d_%d_%d" % (k, j, o), "srcs": [texts[i] for i in seq]})
                 hist.append(seq)
+    # objects whose symbol table holds several UNDEFINED externals (nothing orders them but the declaration): repeated runs
+    for k, ui in enumerate(undef_idx):
+        cases.append({"id": "ud%d" % k, "srcs": [texts[ui]] * 8})
+        hist.append([ui] * 8)
     # all orders of a 4-program pool
     import itertools
     for k, perm in enumerate(itertools.permutations(range(4))):
